@@ -91,6 +91,7 @@ def _random_isolated_ez(rng):
 
 def gen_cases(ctx):
     rng = ctx.rng
+    nsk = 0
     n = ctx.n(9600, 120000)
     for i in range(n):
         fam = i % 8
@@ -131,7 +132,8 @@ def gen_cases(ctx):
             yield {"kind": "organic", "smiles": iso[rng.randrange(len(iso))], "idfam": idfam, "iseed": rng.randrange(1 << 30), "bo": False, "random_molecule": True}
             continue
         elif fam in (5, 6):
-            skel = c12.SKELETONS[(i // 8) % len(c12.SKELETONS)]
+            skel = c12.SKELETONS[(nsk * ctx.nshards + ctx.shard) % len(c12.SKELETONS)]
+            nsk += 1
             iso = c12.isomers(skel)
             yield {"kind": "organic", "smiles": iso[rng.randrange(len(iso))], "idfam": idfam, "iseed": rng.randrange(1 << 30), "bo": False}
             continue
